@@ -63,6 +63,7 @@ type Engine struct {
 	subCtors      []string
 	seqCache      map[*SliceV]*Term
 	trusted       map[string]bool
+	axiomsUsed    []string
 
 	MaxPaths      int
 	DefaultUnroll int
@@ -110,6 +111,21 @@ func NewEngine(w *World) *Engine {
 			sorts = append(sorts, e.sortByName(s))
 		}
 		e.C.AddKeyCtor(kc.Name, sorts)
+	}
+	// `axiom` clauses of contract/spec files: closed formulas over spec functions, assumed globally (listed in evidence)
+	for i, ax := range w.Axioms {
+		func() {
+			defer func() {
+				if r := recover(); r != nil {
+					e.errors = append(e.errors, fmt.Sprintf("axiom %s: %v", ax.Label, r))
+				}
+			}()
+			cell := 0
+			st := &State{heap: map[int]Val{}, nextCell: &cell, ghost: map[string]*Term{}}
+			env := e.newEnv(st, w.AxiomPkg[i])
+			e.C.Axiom(e.evalBool(env, ax.E))
+			e.axiomsUsed = append(e.axiomsUsed, ax.Label+": "+ax.Src)
+		}()
 	}
 	return e
 }
@@ -240,7 +256,7 @@ func (e *Engine) VerifyFunc(key string) {
 				penv.vars[rn] = o.Results[i]
 			}
 		}
-		if len(o.Results) == 1 {
+		if _, taken := penv.vars["result"]; len(o.Results) == 1 && !taken {
 			penv.vars["result"] = o.Results[0]
 		}
 		func() {
@@ -248,6 +264,11 @@ func (e *Engine) VerifyFunc(key string) {
 				if r := recover(); r != nil {
 					if u, ok := r.(*Unsupported); ok {
 						e.fail(name+"#engine.unsupported", "post-state evaluation: "+u.Msg)
+						return
+					}
+					if nd, ok := r.(*NilDeref); ok {
+						// a clause reads through a nil pointer on this path: acceptable only if the path is infeasible
+						e.oblige(o.St, name+"#contract.nilpath", "ensures", "false", "a contract clause dereferences nil here ("+nd.Msg+"): this path must be infeasible", fc.Props)
 						return
 					}
 					panic(r)
@@ -469,7 +490,7 @@ func (e *Engine) lemmaCall(st *State, env *Env, l *Lemma, s LemmaStep, idx int) 
 			cenv.vars[rn] = rs[i]
 		}
 	}
-	if len(rs) == 1 {
+	if _, taken := cenv.vars["result"]; len(rs) == 1 && !taken {
 		cenv.vars["result"] = rs[0]
 	}
 	for _, ld := range fc.PostLets {
